@@ -45,6 +45,15 @@ class Aff:
         return self.a == o.a and self.b == o.b
 
 
+class Rounded:
+    """round(<affine in the income>) with one argument: Python rounds halves to the even neighbour.  Only comparisons with
+    whole-number constants are supported; each is an interval condition on the income itself."""
+    __slots__ = ('inner',)
+
+    def __init__(self, inner):
+        self.inner = inner
+
+
 class Interval:
     """[lo, hi] with open/closed flags; rational end points."""
     __slots__ = ('lo', 'hi', 'lo_open', 'hi_open')
@@ -390,6 +399,11 @@ class PW:
                     return Aff(v.a, v.b, True) if isinstance(v, Aff) else Aff(0, frac(v), True)
                 if f.name == 'int' and not isinstance(args[0], Aff):
                     return int(args[0])
+                if f.name == 'round' and len(args) == 1 and not n.keywords:
+                    if isinstance(args[0], Aff) and args[0].a != 0:
+                        return Rounded(args[0])
+                    v = args[0].b if isinstance(args[0], Aff) else frac(args[0])
+                    return round(v)
                 if f.name == 'len':
                     return len(args[0])
                 if f.name == 'range':
@@ -487,6 +501,8 @@ class PW:
             a = self.ev(n.left, env)
             b = self.ev(n.comparators[0], env)
             op = n.ops[0]
+            if isinstance(a, Rounded) or isinstance(b, Rounded):
+                return self.split_rounded(a, b, op, dom, n)
             if isinstance(a, Aff) or isinstance(b, Aff):
                 if isinstance(op, (ast.Lt, ast.LtE, ast.Gt, ast.GtE)):
                     A = a if isinstance(a, Aff) else Aff(0, frac(a))
@@ -521,6 +537,25 @@ class PW:
         if f:
             out.append((False, f))
         return out
+
+    def split_rounded(self, a, b, op, dom, n):
+        if isinstance(b, Rounded):
+            if isinstance(a, Rounded):
+                raise AnalysisError(f'{self.rel}:{n.lineno} comparison of two rounded incomes is outside the subset')
+            mirror = {ast.Lt: ast.Gt, ast.LtE: ast.GtE, ast.Gt: ast.Lt, ast.GtE: ast.LtE}
+            if type(op) not in mirror:
+                raise AnalysisError(f'{self.rel}:{n.lineno} comparison {unparse(n)} on the rounded income is outside the subset')
+            a, b, op = b, a, mirror[type(op)]()
+        c = b.b if isinstance(b, Aff) and b.a == 0 else (frac(b) if isinstance(b, (int, float)) and not isinstance(b, bool) else None)
+        if c is None or c.denominator != 1 or not isinstance(op, (ast.Lt, ast.LtE, ast.Gt, ast.GtE)):
+            raise AnalysisError(f'{self.rel}:{n.lineno} comparison {unparse(n)} on the rounded income is outside the subset')
+        c = int(c)
+        # round(t) >= k  <=>  t >= k - 1/2 when the half rounds up to k (k even), t > k - 1/2 otherwise
+        neg = isinstance(op, (ast.Lt, ast.LtE))
+        k = c if isinstance(op, (ast.GtE, ast.Lt)) else c + 1
+        half = Aff(0, Fraction(2 * k - 1, 2))
+        res = self.split_cmp(a.inner, half, ast.GtE() if k % 2 == 0 else ast.Gt(), dom, n)
+        return [((not t) if neg else t, d) for (t, d) in res]
 
     def split_cmp(self, A, B, op, dom, n):
         # A op B  with A-B = a*x + b
